@@ -45,6 +45,13 @@ pub fn configure(prop: &str, inst: &str, cfg: &mut Config) {
 }
 
 pub fn body(prop: &str, inst: &str) {
+    body_inner(prop, inst);
+    // every completed path carries a false-by-construction control: it must be refutable
+    let g = symcore::Sym::var("ctl");
+    symcore::control("generic control", symcore::eq(g, g + symcore::Sym::lit(1.0)));
+}
+
+fn body_inner(prop: &str, inst: &str) {
     match prop {
         "C01" => c01::body(inst),
         "C02" => c02::body(inst),
